@@ -897,6 +897,11 @@ class Program:
         import symren as _symren
         nm = _namemap()
         self.symren = _symren.canonicalise(facts, nm, root)
+        import structassign as _sa
+        for u in self.units:
+            if not facts[u].get("_structassign_done"):
+                facts[u]["_structassign_done"] = True
+                _sa.canonicalise(facts[u])
         self.inlined = {}
         for u in self.units:
             if u in nm and not facts[u].get("_inlined_done"):
